@@ -21,6 +21,19 @@ Proof. exact C02_full.entry_refines_d27_fixed. Qed.
 Check entry_refines_d27_fixed.
 Print Assumptions entry_refines_d27_fixed.
 
+(* since fixes D27 and D30: NO exclusion at all for scalar entries (the hypothesis on integers
+   says what a YAML integer can be: serde_yaml holds i64 or u64) *)
+Theorem entry_refines_unrestricted : forall o ic k v e,
+  scalar_yaml v = true ->
+  match v with YInt z => (i64_min <=? z)%Z && (z <=? u64_max)%Z | _ => true end = true ->
+  parse_entry o ic (YStr k) v None [] = Ok e ->
+  exists m f, read_key o k = Some (m, f) /\
+              match m with KAll | KOf _ => False | _ => True end /\
+              forall d : doc, solve_body o e (pure_doc d) = Ok (sem_entry_scalar o ic m f v d).
+Proof. exact C02_full.entry_refines_unrestricted. Qed.
+Check entry_refines_unrestricted.
+Print Assumptions entry_refines_unrestricted.
+
 (* mappings whose values are scalars, non-empty lists of scalars, or such mappings *)
 Fixpoint list_mapping (fuel : nat) (y : yaml) : bool :=
   match fuel with
